@@ -5,7 +5,6 @@ import (
 	"fmt"
 	"os"
 	"path/filepath"
-	"strings"
 
 	fs "github.com/go-text/typesetting/fontscan"
 
@@ -154,7 +153,7 @@ func runHistory(run *vrun.Run, top string, w HistWitness) {
 			prev = back
 			run.Cover("d:prev-through-cache-format")
 		}
-		if run.WantSample() && step == len(w.Ops)-1 && len(freshM) >= 3 {
+		if step == len(w.Ops)-1 && len(freshM) >= 3 && run.WantSample() && wantSample("d", 2) {
 			var ops []string
 			for _, o := range w.Ops {
 				ops = append(ops, o.String())
@@ -231,12 +230,4 @@ func conformance(run *vrun.Run, base string, roots []string, model *treeModel, f
 		}
 	}
 	return "", ""
-}
-
-func opsSummary(ops []Op) string {
-	var s []string
-	for _, o := range ops {
-		s = append(s, o.String())
-	}
-	return strings.Join(s, "; ")
 }
